@@ -344,7 +344,7 @@ void writeVector(const std::vector<VecType> &x, std::ostream &os){
         if (pad == pad_rspace)
             for(auto i : x) os << i << " ";
         if ((pad == pad_none) || (pad == pad_line)){
-            os << x[0];
+            if (!x.empty()) os << x[0]; // grids with zero outputs carry empty value vectors
             for(size_t i = 1; i < x.size(); i++) os << " " << x[i];
             if (pad == pad_line) os << std::endl;
         }
